@@ -203,7 +203,7 @@ def api_oracle(b):
 
 
 # ----------------------------------------------------------------------------- correspondence with Psd/Resave.v
-IMPORTS = ["Base.Prelude", "Psd.Codec", "Psd.Model", "Psd.Corr", "Psd.Resave"]
+IMPORTS = ["Base.Prelude", "Psd.Codec", "Psd.Model", "Psd.Resave"]      # not Psd.Corr: Resave.v carries its own copy of bw / c_psd / dig
 
 
 def _container_level():
